@@ -44,6 +44,9 @@ ASSUMPTIONS = [
     "a string with two operands and no operator between them (`(1+2)(3+4)`, `sin(1)cos(1)`, `2 3`: a deleted binary "
     "operator) is judged as not well-formed, to be rejected: no pass can remove the surplus operand, so the final "
     "test or an earlier step raises on the unchanged code",
+    "the stock AtomBase runs in a worker process with a 20 s watchdog (unchanged code needs well under a second "
+    "per input); a timeout is reported as a violation of the value clause and ends the AtomBase comparisons of "
+    "the run",
     "integer literals of any length denote the float nearest to them (AtomBase builds float(text)); AtomBase "
     "results are compared by value AND numeric kind (bool / int / float / complex, np.float64 = float)",
     "strings in no class of the property (recogniser class 'other': '()', adjacent operands, stray characters, "
@@ -163,6 +166,8 @@ def judge_text(ctx, text, cls, ast_eval, model, opname, where):
         else:
             # stock AtomBase: same operations on floats
             stock = L.run_stock(text)
+            if stock == "skipped":
+                return impl
             via_impl = L.float_outcome(lambda: L.eval_float(impl["atom"]))
             # the specification value modulo neg(neg a) = a (the assumed law): on Python bools the law holds
             # only up to value (-(-False) is the int 0) and numpy picks float16 for np.log10(True) but a wider
@@ -180,6 +185,8 @@ def judge_text(ctx, text, cls, ast_eval, model, opname, where):
                                  "AtomBase %s, recorded term in floats %s" % (stock, via_impl))
     elif cls in MUST_REJECT:
         stock = L.run_stock(text)
+        if stock == "skipped":
+            stock = "err"
         if impl != "err" or stock != "err":
             ctx.violation("reject:" + cls,
                           "%s string %r is not rejected: recording atom -> %s, AtomBase -> %s" %
@@ -452,7 +459,7 @@ def chain_stream(ctx, reqs):
         # the stock AtomBase on the same text
         stock = L.run_stock(text)
         via = L.float_outcome(lambda: L.eval_postfix_float(spec))
-        if stock != via:
+        if stock != via and stock != "skipped":
             ctx.violation("wf-value-long-atombase",
                           "AtomBase on a flat expression with %d operands (%r…) gives %s, the documented order in "
                           "floats %s" % (rq["operands"], text[:40], stock, via), replay)
@@ -503,6 +510,8 @@ def consistency_stream(ctx, pairs):
     comparison of the two operand values (finite operands only)"""
     for a, b in pairs:
         va, vb = L.run_stock(a), L.run_stock(b)
+        if "skipped" in (va, vb) or "timeout" in (va, vb):
+            return
         if not (isinstance(va, L.Val) and isinstance(vb, L.Val)):
             continue
         x, y = va.v, vb.v
@@ -580,6 +589,7 @@ def small_family():
 
 def correspond(ctx: Ctx):
     import sys
+    L.STOCK["off"] = False
     sys.setrecursionlimit(max(sys.getrecursionlimit(), 20000))   # the reference recogniser is recursive descent
     thorough = ctx.tier == "thorough"
     rng = ctx.rng
